@@ -118,6 +118,17 @@ func equalLayout(a, b [][]string) bool {
 	return true
 }
 
+// rebalancedNoPanic calls the real placement function and turns a panic into a reportable outcome.
+func rebalancedNoPanic(ns string, parts, replica int, old [][]string, nodes map[string]cluster.NodeInfo, ver string) (l [][]string, refused bool, other string, panicked string) {
+	defer func() {
+		if r := recover(); r != nil {
+			panicked = fmt.Sprint(r)
+		}
+	}()
+	l, refused, other = pd.VerifRebalanced(ns, parts, replica, old, nodes, ver)
+	return
+}
+
 // checkLayout: the per-layout oracle shared by fresh layouts and BFS transitions.
 func checkLayout(col *ev.Collector, ver, ns string, names []string, parts, replica int, old [][]string, what string) ([][]string, bool) {
 	live := map[string]bool{}
@@ -128,7 +139,12 @@ func checkLayout(col *ev.Collector, ver, ns string, names []string, parts, repli
 		col.Add(ev.Violation{Property: "C17", Signature: "C17|" + ver + "|" + sig, What: fmt.Sprintf("%s: %s [%s, ns %q, %d partitions x %d replicas, nodes %v, previous layout {%s}]", ver, msg, what, ns, parts, replica, names, layoutStr(old)),
 			Replay: map[string]interface{}{"ver": ver, "ns": ns, "nodes": names, "partitions": parts, "replica": replica, "old": old}})
 	}
-	l1, refused, other := pd.VerifRebalanced(ns, parts, replica, old, nodesOf(names, false), ver)
+	l1, refused, other, panicked := rebalancedNoPanic(ns, parts, replica, old, nodesOf(names, false), ver)
+	if panicked != "" {
+		// neither a layout nor a refusal: in the daemon this kills the placement loop of the leader PD
+		report("panic", "the placement computation panicked: "+panicked)
+		return nil, false
+	}
 	if refused || other != "" {
 		if other != "" || len(names) >= replica {
 			report("refused-with-enough-nodes", fmt.Sprintf("refused (%v) although %d nodes >= %d replicas", other, len(names), replica))
@@ -166,7 +182,7 @@ func checkLayout(col *ev.Collector, ver, ns string, names []string, parts, repli
 	for i := range old {
 		oldCopy[i] = append([]string(nil), old[i]...)
 	}
-	l2, ref2, oth2 := pd.VerifRebalanced(ns, parts, replica, oldCopy, nodesOf(names, true), ver)
+	l2, ref2, oth2, _ := rebalancedNoPanic(ns, parts, replica, oldCopy, nodesOf(names, true), ver)
 	if ref2 || oth2 != "" || !equalLayout(l1, l2) {
 		report("nondeterministic", fmt.Sprintf("two calls with the same inputs differ: {%s} vs {%s} (%v %v)", layoutStr(l1), layoutStr(l2), ref2, oth2))
 	}
